@@ -258,7 +258,10 @@ def L(fd, default=None, call=False, sens=False):
 def matrix_cases():
     B64 = {"k": "bytes", "req": False, "enc": "base64"}
     HEX = {"k": "bytes", "req": False, "enc": "hex"}
+    RXL = {"k": "list", "req": False, "item": SF.fstr(regex="^a|bc")}
+    RXD = {"k": "dict", "req": False, "kf": SF.fstr(regex="k"), "vf": SF.fstr(regex="v$", mx=4)}
     item = [("n", L(SF.fnum("int", True, 0, 10))),
+            ("tag", L(SF.fstr(regex="t[0-9]"))),
             ("tags", L({"k": "list", "req": False, "item": B64})),
             ("ip", L(SF.fstr("ipv4"))),
             ("env", L({"k": "dict", "req": False, "kf": SF.fstr(case="upper", mn=1), "vf": SF.fnum("int", False, 0, None)}))]
@@ -266,7 +269,9 @@ def matrix_cases():
            ("net", L(SF.fstr("net", minp=8, maxp=24), "10.0.0.0/8")),
            ("keys", L({"k": "dict", "req": False, "kf": HEX, "vf": {"k": "list", "req": False, "item": SF.fnum("int", False, 0, 10)}})),
            ("lvl", L(SF.fnum("int", True, 1, 5))),
-           ("pt", L({"k": "port", "req": False}, 443))]
+           ("pt", L({"k": "port", "req": False}, 443)),
+           ("pat", L(SF.fstr(regex="x*y", strip=True))),
+           ("rhost", L(SF.fstr("host", regex="srv")))]
     fields = [("port", L({"k": "port", "req": False}, 8080)),
               ("host", L(SF.fstr("host", allow=False), "localhost")),
               ("addr", L(SF.fstr("ipv4", strip=True))),
@@ -285,7 +290,12 @@ def matrix_cases():
               ("on", L({"k": "bool", "req": False})),
               ("sub", {"t": "sub", "dyn": False, "vals": [], "fields": sub}),
               ("rows", {"t": "cfglist", "required": False, "vals": [], "fields": item, "ct": True}),
-              ("c", L({"k": "any", "req": False}))]
+              ("c", L({"k": "any", "req": False})),
+              ("code", L(SF.fstr(regex="b[0-9]", mx=6), "b7")),
+              ("rxs", L(RXL)),
+              ("rxd", L(RXD)),
+              ("rip", L(SF.fstr("ipv4", regex="1\\."))),
+              ("rlvl", L({"k": "loglevel", "req": False, "regex": "(?i)info|err"}))]
     base = {"vt": [], "dyn": False, "vals": [], "fields": fields}
     R = ()
     SUB = (("key", "sub"),)
@@ -313,6 +323,12 @@ def matrix_cases():
     sets(R, "f13", ["Ab", "ab", "aAb", "b", ""])
     sets(R, "on", ["yes", "OFF", "maybe", 0, 2.5, None, [], b"1"])
     sets(R, "c", [None, {"x": [1]}, (1, 2), b"b", 2.5])
+    # patterns are re.match (anchored at the start only): values where search / match / fullmatch differ
+    sets(R, "code", ["b1", "b1x", "xb1", "x\nb1", "b1\n", "B1", "b", "", "b1xxxxx", None, 5])
+    sets(R, "rxs", [["a", "bc", "ax"], ["xa"], ["xbc"], ["b"], ["x\na"], [], ("abc", "bcd"), [None, "a"]])
+    sets(R, "rxd", [{"k": "v"}, {"xk": "v"}, {"k": "vx"}, {"k": "v\n"}, {"k1": "vv", "k2": "xv"}, {"k": "xxxv"}, {"k": None}, {}])
+    sets(R, "rip", ["1.2.3.4", "21.2.3.4", "2.1.3.4", "11.1.1.1", "1.1"])
+    sets(R, "rlvl", ["info", "INFO", " Error ", "debug", "xinfo", "information"])
     sets(R, "nokey", [1])
     sets(R, "sub", [{"net": "10.0.0.0/8", "lvl": 1}, {"net": "10.0.0.0/7", "lvl": 1}, {"net": "10.1.2.0/24", "lvl": 5},
                     {"net": "10.1.2.0/25", "lvl": 5}, {"net": "10.1.2.3", "lvl": 2}, {"lvl": 0}, {"lvl": 6}, {"lvl": "3", "pt": "22"},
@@ -322,17 +338,20 @@ def matrix_cases():
     sets(SUB, "net", ["10.0.0.0/8", "10.0.0.0/7", "10.1.2.0/24", "10.1.2.0/25", "10.1.2.3/32", "10.0.0.0/08", None])
     sets(SUB, "keys", [{b"\x00": [1]}, {"k": [1]}, {b"k": (1, 2), "k": [3]}, {b"k": [11]}, {b"k": None}, None])
     sets(SUB, "lvl", [1, 5, 0, 6, None, "2"])
+    sets(SUB, "pat", ["y", "xxy", "zy", " xy ", "yz", "", "x"])
+    sets(SUB, "rhost", ["srv1", "my-srv", "srv", "1.2.3.4", "SRV2"])
     sets(SUB, "flag", ["off", "on", None, 2])
     sets(R, "rows", [[{"n": 1}], [{"n": 1, "tags": ["QQ==", "QUI="]}], [{"n": 1, "tags": ["QQ="]}], [{"n": 1, "tags": [b"raw"]}],
                      [{"n": 1, "ip": "1.2.3.4"}, {"n": 2, "ip": "1.2.3.04"}], [{"n": 11}], [{"ip": "1.2.3.4"}], [{"n": 1}, 5],
                      [{"n": 1, "env": {"a": 1, "A": 2}}], [{"n": 1, "env": {"": 1}}], [{"n": 1, "env": {"a": -1}}], ({"n": 3},), [], None, "str"])
-    for it in [{"n": 4}, {"n": 44}, {"n": 4, "tags": ["AAAA"]}, {"n": 4, "tags": ["A"]}, 7]:
+    for it in [{"n": 4}, {"n": 44}, {"n": 4, "tags": ["AAAA"]}, {"n": 4, "tags": ["A"]}, 7, {"n": 4, "tag": "xt2"}, {"n": 4, "tag": "t2"}]:
         ops.append((R, ("append", "rows", it)))
     for i, it in [(0, {"n": 6}), (0, {"n": -1}), (7, {"n": 6}), (0, {"n": 6, "ip": "01.2.3.4"})]:
         ops.append((R, ("setidx", "rows", i, it)))
     sets(R0, "n", [8, "bad", None])
     sets(R0, "tags", [[b"a", "b"], ["\ud800"], None])
     sets(R0, "ip", ["9.9.9.9", "9.9.9"])
+    sets(R0, "tag", ["t1", "xt1", "t", "t1\nx"])
     sets(R0, "env", [{"k": 1}, {"k": "x"}])
     for t, v in [({"port": "81", "name": " LoAd "}, True), ({"port": 0}, True), ({"name": None}, True), ({"name": None}, False),
                  ({"blob": "QUJD"}, True), ({"blob": "QUJ"}, True), ({"blob": b"raw"}, True), ({"blob": None}, True),
@@ -346,6 +365,10 @@ def matrix_cases():
                  ({"rows": [{"n": 2, "tags": ["QQ=="], "ip": "1.1.1.1"}]}, True), ({"rows": [{"n": 2, "tags": ["Q"]}]}, True),
                  ({"rows": [{"n": 2}, {"n": 99}]}, True), ({"rows": None}, True), ({"rows": "abc"}, True),
                  ({"ratio": "1", "net": "0.0.0.0/0", "addr": "1.2.3.4", "host": "h1"}, True), ({"ratio": 2}, True), ({"mode": "ERROR"}, True),
+                 ({"code": "xb1"}, True), ({"code": "b1x"}, True), ({"rxs": ["a", "xa"]}, True), ({"rxs": ["bc"]}, True),
+                 ({"rxd": {"xk": "v"}}, True), ({"rxd": {"k": "v"}}, True), ({"rip": "21.2.3.4"}, True),
+                 ({"sub": {"lvl": 1, "pat": "zy", "rhost": "my-srv"}}, True), ({"sub": {"lvl": 1, "pat": "xy", "rhost": "srv9"}}, True),
+                 ({"rows": [{"n": 1, "tag": "xt1"}]}, True), ({"rows": [{"n": 1, "tag": "t1"}]}, True),
                  ({"f13": "Ab"}, True), ({"zz": 1}, True), ({}, True), ({"c": {"k": [1]}, "on": "t"}, True)]:
         ops.append((R, ("load", t, v)))
     ops.append((SUB, ("load", {"lvl": 2, "net": "10.0.0.0/8", "keys": {"ff": [0]}}, True)))
@@ -358,7 +381,8 @@ def matrix_cases():
     cases = [dict(base, kw={}, ops=[o], kind="matrix1") for o in ops]
     for kwk, kwv in [("port", "80"), ("port", 0), ("name", " Ab "), ("name", ""), ("sub", {"lvl": 1}), ("sub", {"lvl": 9}),
                      ("sub", {"lvl": 1, "net": "10.0.0.0/7"}), ("rows", [{"n": 1, "tags": ["QQ=="]}]), ("rows", [{"n": 50}]),
-                     ("tags", ["A "]), ("nums", [11]), ("env", {"A": 1}), ("nokey", 1), ("blob", "txt"), ("cnt", 1)]:
+                     ("tags", ["A "]), ("nums", [11]), ("env", {"A": 1}), ("nokey", 1), ("blob", "txt"), ("cnt", 1),
+                     ("code", "xb1"), ("code", "b1"), ("rxs", ["xbc"]), ("rxd", {"xk": "v"})]:
         cases.append(dict(base, kw={kwk: kwv}, ops=[(R, ("validate", True)), (R, ("reset", kwk))], kind="matrix-ctor"))
     return cases, ops, base
 
